@@ -85,12 +85,15 @@ pub fn run(args: &Args) {
     let corp = corpus();
     // the build with overflow checks and debug assertions runs a reduced corpus in the quick tier
     let use_ids: Vec<u8> = if thorough { (0..corp.len() as u8).collect() } else if args.variant.starts_with("dbgrel") { vec![0, 2] } else { vec![0, 1, 2, 4, 7, 8] };
-    let mut all: Vec<Mutant> = vec![];
+    let mut viol: Vec<(usize, Violation)> = vec![];
+    let (mut total, mut clean, mut unconf) = (0, 0, 0);
+    let mut index_base = 0usize;
+    // one corpus proof at a time (the thorough mutant sets of all proofs together do not fit in memory)
     for e in corp.iter().filter(|e| use_ids.contains(&e.id)) {
         let bytes = honest_bytes(e);
         let tree = r8_tree(e, &bytes);
-        all.extend(mutants_of(e, &bytes, &tree, thorough));
-    }
+        // pairs of edits (thorough) only in the release build: the checked build is 2-3 times slower
+        let all: Vec<Mutant> = mutants_of(e, &bytes, &tree, thorough && !args.variant.starts_with("dbgrel"));
     let accs: Vec<Acc> = pool::run(
         &cfg,
         all.len(),
@@ -116,13 +119,13 @@ pub fn run(args: &Args) {
             }
         },
     );
-    let mut viol: Vec<(usize, Violation)> = vec![];
-    let (mut total, mut clean, mut unconf) = (0, 0, 0);
     for a in accs {
         total += a.total;
         clean += a.clean;
         unconf += a.unconfirmed;
-        viol.extend(a.viol);
+        viol.extend(a.viol.into_iter().map(|(i, v)| (index_base + i, v)));
+    }
+        index_base += all.len();
     }
     viol.sort_by_key(|(i, _)| *i);
     report.part("mutated proofs: Proof::from_bytes + verify under OptionSet / MinConjecturedSecurity / MinProvenSecurity x right / wrong public inputs", total, total, json!({"clean": clean, "offences_not_repeated_in_a_fresh_worker": unconf, "corpus_proofs": use_ids.len()}));
